@@ -7,11 +7,11 @@ namespace Operon.Cffl
 /-- "not closed ⇒ the failure count has reached the threshold" -/
 def BrInv (cfg : Cfg) (b : Breaker) : Prop := b.cstate ≠ .closed → cfg.threshold ≤ (b.failures : Int)
 
-theorem admit_cases (cfg : Cfg) (now : Nat) (b : Breaker) :
-    admit cfg now b = b ∨
+theorem enter_cases (cfg : Cfg) (now : Nat) (b : Breaker) :
+    enter cfg now b = b ∨
     (cfg.breakerOn = true ∧ b.cstate = .opened ∧ elapsedOk cfg now b = true ∧
-      admit cfg now b = { b with cstate := .halfOpen }) := by
-  unfold admit
+      enter cfg now b = { b with cstate := .halfOpen }) := by
+  unfold enter
   cases cfg.breakerOn <;> cases hc : b.cstate <;> cases elapsedOk cfg now b <;> simp
 
 theorem brStep_inv (cfg : Cfg) (now : Nat) (b : Breaker) (k : Kind) (h : BrInv cfg b) :
@@ -22,7 +22,7 @@ theorem brStep_inv (cfg : Cfg) (now : Nat) (b : Breaker) (k : Kind) (h : BrInv c
   by_cases hk : k = .circuitOpen
   · simp [hk, Kind.isFailure]; exact h
   · rw [if_neg hk]
-    rcases admit_cases cfg now b with ha | ⟨_, hopen, _, ha⟩
+    rcases enter_cases cfg now b with ha | ⟨_, hopen, _, ha⟩
     · rw [ha]
       cases k with
       | circuitOpen => exact absurd rfl hk
@@ -122,7 +122,7 @@ theorem recordFailure_after (cfg : Cfg) (now : Nat) (b : Breaker) (m : Nat)
 theorem brStep_failure (cfg : Cfg) (now : Nat) (b : Breaker) (k : Kind) (m : Nat) (hk : k.isFailure = true)
     (h : m = 0 ∨ AfterFailures cfg b m) : AfterFailures cfg (brStep cfg now b k) (m + 1) := by
   have hne : k ≠ .circuitOpen := by intro h; subst h; simp [Kind.isFailure] at hk
-  have hap : applyKind cfg now (admit cfg now b) k = recordFailure cfg now (admit cfg now b) := by
+  have hap : applyKind cfg now (enter cfg now b) k = recordFailure cfg now (enter cfg now b) := by
     cases k with
     | agentExc => rfl
     | gated ev => cases ev <;> simp [Kind.isFailure] at hk; rfl
@@ -130,7 +130,7 @@ theorem brStep_failure (cfg : Cfg) (now : Nat) (b : Breaker) (k : Kind) (m : Nat
   unfold brStep
   rw [if_neg hne, hap]
   apply recordFailure_after
-  rcases admit_cases cfg now b with ha | ⟨_, _, _, ha⟩
+  rcases enter_cases cfg now b with ha | ⟨_, _, _, ha⟩
   · rw [ha]
     rcases h with h | h
     · exact Or.inl h
@@ -221,7 +221,7 @@ theorem brStep_nonfailure (cfg : Cfg) (now : Nat) (b : Breaker) (k : Kind) (hk :
       | cacheHit => rcases hb' with h | h <;> subst h <;> simp [applyKind]
       | raised => rcases hb' with h | h <;> subst h <;> simp [applyKind]
       | admin => rcases hb' with h | h <;> subst h <;> simp [applyKind]
-    rcases admit_cases cfg now b with ha | ⟨_, _, _, ha⟩
+    rcases enter_cases cfg now b with ha | ⟨_, _, _, ha⟩
     · have := key _ (Or.inl ha)
       exact ⟨this.1, this.2.1, this.2.2.1, this.2.2.2.1, fun h => (this.2.2.2.2 h).1⟩
     · have := key _ (Or.inr ha)
